@@ -16,7 +16,6 @@ llsd/date-shift/naive-datetime/nonutc/zip, message/raise/serialize-dict/MVT_LLQu
 import datetime
 import hashlib
 import json
-import math
 import os
 import random
 import struct
@@ -24,7 +23,6 @@ import subprocess
 import sys
 import time
 import uuid
-import zlib
 
 UTC = datetime.timezone.utc
 EPOCH_N = datetime.datetime(1970, 1, 1)
@@ -245,8 +243,8 @@ def check_value(v, codec, tzc):
     if a[0] == "date":
         delta = b[1] - a[1]
         cls = "date-subsecond" if abs(delta) < 1_000_000 else "date-shift"
-        # a time zone can only move an instant by whole minutes: the zone class is part of the key for shifts only
-        return (cls, _node_detail(a, tzc if cls == "date-shift" else None), f"at {where}: instant moved by {delta} microseconds through {name} "
+        # a time zone can only move an instant by whole minutes: Python form and zone class are part of the key for shifts only
+        return (cls, _node_detail(a, tzc) if cls == "date-shift" else "date", f"at {where}: instant moved by {delta} microseconds through {name} "
                                             f"(expected {a[1]} us since epoch, got {b[1]}; input form {a[2]})")
     if a[0] in ("array", "map"):
         return ("shape", _node_detail(a), f"at {where}: {a[0]} came back with different members through {name}: "
@@ -473,10 +471,11 @@ WRAPPERS = [
 
 
 def tree_depth(v):
-    ch = children(v)
-    if not isinstance(v, (list, tuple, dict)) or (not ch and not isinstance(v, (list, tuple, dict))):
+    """nesting depth of containers: a leaf (or one of the library's vector objects) is 0, [] is 1"""
+    from hippolyzer.lib.base.datatypes import TupleCoord
+    if isinstance(v, TupleCoord) or not isinstance(v, (list, tuple, dict)):
         return 0
-    return 1 + max([tree_depth(c) for c in ch] or [0])
+    return 1 + max([tree_depth(c) for c in children(v)] or [0])
 
 
 def all_strings_legal(v):
@@ -704,9 +703,6 @@ def describe_msg(msg):
     return {"message": msg.name, "blocks": {bn: [{vn: describe(v) for vn, v in b.vars.items()} for b in bl] for bn, bl in msg.blocks.items()}}
 
 
-LLSD_NATIVE_EXACT = (type(None), bool, int, float, str, bytes)
-
-
 def not_llsd_native(val):
     """why a leaf of the dict (event-queue) form is not something LLSD can carry, or None"""
     from hippolyzer.lib.base.datatypes import TupleCoord
@@ -915,7 +911,7 @@ def check_packers(rng, tier, fails, stats, seen):
     from hippolyzer.lib.base import llsd
     from hippolyzer.lib.base.message.data_packer import LLSDDataPacker
     from hippolyzer.lib.base.message.msgtypes import MsgType
-    from hippolyzer.lib.base.datatypes import Vector3, Vector4, Quaternion
+    from hippolyzer.lib.base.datatypes import Quaternion
     from contracts import msggen
 
     class TV:
